@@ -431,7 +431,7 @@ func c11TLC(b c11Bounds, name string) core.TLCOpts {
 	defs := fmt.Sprintf("c_Scen == %s\nc_SortLens == %s\nc_StrLens == %s\nc_Explore == %s\n%s\n", b.scen, b.sortLens, b.strLens, b.explore, c11Chunks)
 	cfg := fmt.Sprintf("SPECIFICATION Spec\nCONSTANTS\n Scen <- c_Scen\n SortLens <- c_SortLens\n Keys = %s\n SortExplore <- c_Explore\n ExploreKeys = %s\n Alpha = {97, 98, 233}\n StrLens <- c_StrLens\n ChunkSet <- c_Chunks\n MaxChunks = %d\n MaxOps = %d\n ConcN = {1, 2, 3}\n ConcK = {1, 2}\n StaleLess = %s\n DropEOFData = %s\n NoMutex = %s\n EmitOn = %s\nINVARIANTS %s\nVIEW View\n",
 		b.keys, b.exploreKeys, b.maxChunks, b.maxOps, t(b.stale), t(b.drop), t(b.nomutex), t(b.emit), b.invs)
-	return core.TLCOpts{Spec: "Interop", MCDefs: defs, Cfg: cfg, CfgName: name, Workers: 6, Timeout: 20 * time.Minute}
+	return core.TLCOpts{Spec: "Interop", MCDefs: defs, Cfg: cfg, CfgName: name, Workers: 6, Timeout: 40 * time.Minute}
 }
 
 const c11AllScen = `{"sort", "map", "fields", "fmt", "reader", "conc", "call", "apply"}`
@@ -714,7 +714,7 @@ func c11Validate(c *core.Ctx) error {
 	c.Extra["callback_logs_validated_by_tlc"] = len(lines)
 	res, err := c.TLC(core.TLCOpts{Spec: "InteropTrace", CfgName: "recorded-logs", Workers: 1,
 		Cfg:        "SPECIFICATION Spec\nINVARIANT Accepted\nPOSTCONDITION AllSeen\n",
-		ExtraFiles: map[string]string{"c11_logs.ndjson": strings.Join(lines, "\n") + "\n"}, ExpectError: true, Timeout: 15 * time.Minute})
+		ExtraFiles: map[string]string{"c11_logs.ndjson": strings.Join(lines, "\n") + "\n"}, ExpectError: true, Timeout: 40 * time.Minute})
 	if err != nil {
 		return err
 	}
